@@ -43,7 +43,7 @@ def parse_overlay(path):
         elif sec[0] == "closure_ghost": cur["closure_ghosts"][sec[1]] = text
         elif sec[0] == "closure_let": cur["closure_lets"][sec[1]] = text
         elif sec[0] == "raw": cur["raw"] = text
-        elif sec[0] == "hint": cur["hints"].append((sec[1], sec[2], text))
+        elif sec[0] == "hint": cur["hints"].append((sec[1], sec[2], text, sec[3]))
         buf = []
     defs = {}
     pending = []
@@ -93,7 +93,7 @@ def parse_overlay(path):
                 sec = ("closure_ghost", int(w[1]))
             elif w[0] == "closure_let":
                 sec = ("closure_let", int(w[1]))
-            elif w[0] == "hint":
+            elif w[0] in ("hint", "hint?"):
                 # //@ hint [n] after `code`  : ghost lines placed right behind the n-th occurrence of the (extracted) code text
                 rest = ln[3:].split(None, 1)[1]
                 n = 0
@@ -101,7 +101,7 @@ def parse_overlay(path):
                     n = int(rest.split()[0]); rest = rest.split(None, 1)[1]
                 if not rest.startswith("after `") or not rest.rstrip().endswith("`"):
                     raise ExtractError("overlay %s: bad hint marker %r" % (path, ln))
-                sec = ("hint", n, rest.rstrip()[7:-1])
+                sec = ("hint", n, rest.rstrip()[7:-1], w[0] == "hint?")
             elif w[0] == "guard":
                 cur["guard"] = " ".join(w[1:]); sec = None
             elif w[0] == "end":
@@ -386,10 +386,13 @@ def extract(unit, ex):
 def splice_hints(frag, ov, info):
     """ghost statements of the overlay placed behind an anchor in the extracted code (the anchor must be present: a lost anchor is exit 2)"""
     ins = []
-    for n, anchor, text in ov.get("hints", []):
+    for n, anchor, text, optional in ov.get("hints", []):
         pat = T(anchor)
         hits = [i for i in range(len(frag) - len(pat) + 1) if all(frag[i + j].s == pat[j].s for j in range(len(pat)))]
-        if n >= len(hits): raise ExtractError("item %s: hint anchor %r occurrence %d not found (%d present)" % (ov["id"], anchor, n, len(hits)))
+        if n >= len(hits):
+            # `hint?`: a proof aid for a statement whose absence is itself a semantic change: the proof is attempted without it
+            if optional: info["rules"]["hint_skipped"] = info["rules"].get("hint_skipped", 0) + 1; continue
+            raise ExtractError("item %s: hint anchor %r occurrence %d not found (%d present)" % (ov["id"], anchor, n, len(hits)))
         ins.append((hits[n] + len(pat), [Tok("raw", "\n" + text + "\n", None, 0, True)]))
     for pos, new in sorted(ins, key=lambda x: -x[0]):
         frag[pos:pos] = new
